@@ -850,5 +850,6 @@ FUZZ = {
     "tri_xs": {"quick": 800, "thorough": 40000},
     "ortho_xs": {"quick": 800, "thorough": 40000},
     "ortho_x_xu": {"quick": 1000, "thorough": 40000},
-    "sequence": {"quick": 500, "thorough": 20000},
 }
+# (`sequence` has no coverage-guided shard: a case of 2-3 files does not decode from a 16 KiB random buffer — measured
+# 0 of 300; `sizes` is seeded synthesis, nothing for byte mutation to steer.)
